@@ -65,6 +65,9 @@ pub mod qdldl;
 pub mod solver;
 pub mod timers;
 
+#[cfg(clarabel_verif)]
+pub mod verif;
+
 pub(crate) mod utils;
 pub use crate::utils::infbounds::*;
 
